@@ -274,6 +274,32 @@ class Planner:
                  _ex(rng, bp, mode="check"), _ex(rng, bp, diag=_diag_gen(rng)), _ex(rng, bp, mode="check")]
         self.add("shrink_deps", rng, steps)
 
+    def overlap(self, i):
+        """two pavexc processes sharing one cache (or one project): A is parked at a seeded write, B runs
+        from start to end, A goes on"""
+        rng = self.rng("overlap", i)
+        bp = rng.choice(self.dep_heavy)
+        init = {}
+        steps = []
+        if i % 3 != 2:
+            # cache phase: B works in the sibling project (its own sources, possibly another state of the
+            # same path dependency), both processes insert rows for the crates evicted here
+            other = rng.choice(self.valid)
+            if rng.chance(1, 2):
+                init["p1"] = [rng.choice(["move_a_b", "dep_sig", "dep_body", "app_dep_feature"])]
+            steps.append({"op": "evict", "what": "crate", "name": rng.choice(["simdep", "pavex", "http"])})
+            steps.append({"op": "overlap_exec", "phase": "cache", "k_draw": rng.below(1 << 30),
+                          "exec": _ex(rng, bp, diag=_diag_gen(rng)), "peer": _ex(rng, other, proj="p1")})
+            steps.append(_ex(rng, other, proj="p1", mode="check"))
+        else:
+            # project phase: the SAME blueprint generated twice into the same project at once
+            steps.append(_seed_outdir(rng, bp, self.valid))
+            steps.append({"op": "overlap_exec", "phase": "project", "k_draw": rng.below(1 << 30),
+                          "exec": _ex(rng, bp, diag="diag.dot"), "peer": _ex(rng, bp, diag="diag.dot")})
+        steps.append(_ex(rng, bp, mode="check", diag="diag.dot" if i % 3 == 2 else None))
+        steps.append(_ex(rng, bp))
+        self.add("overlap", rng, steps, "warm", init)
+
     def moved_blueprint(self, i, bp=None):
         """a blueprint serialised on another checkout: its source locations name files that are not
         there, so every diagnostic that wants a snippet meets an I/O error"""
@@ -344,6 +370,8 @@ class Planner:
                 self.seeds(i, bp)
             for i in range(2 if q else 12):
                 self.shrink_deps(i)
+            for i in range(4 if q else 40):
+                self.overlap(i)
             self.ui_mix(24 if q else None, 3, 1 if q else 3, "accept")
             if not q:
                 for rep in range(1, 9):
@@ -385,6 +413,8 @@ class Planner:
                 self.bad_diag(i)
             for i in range(1 if q else 6):
                 self.shrink_deps(100 + i)
+            for i in range(3 if q else 30):
+                self.overlap(100 + i)
             self.ui_mix(24 if q else None, 3, 1 if q else 3, "reject")
             if not q:
                 for rep in range(1, 8):
@@ -411,9 +441,9 @@ def needed_goldens(histories):
                 tog[s.get("proj", "p0")] ^= {s["edit"]}
             elif s["op"] == "seed_outdir" and s["state"] != "none":
                 need.add((s["bp"], tuple(sorted(s.get("toggles", ())))))
-            ex = s if s["op"] == "exec" else s.get("exec")
-            if ex:
-                need.add((ex["bp"], tuple(sorted(tog[ex.get("proj", "p0")]))))
+            for ex in ([s] if s["op"] == "exec" else [s.get("exec"), s.get("peer")]):
+                if ex:
+                    need.add((ex["bp"], tuple(sorted(tog[ex.get("proj", "p0")]))))
     return sorted(need)
 
 
@@ -424,6 +454,8 @@ def estimate_cost(h):
             c += 4.0
         elif s["op"] == "fault_exec":
             c += 10.0
+        elif s["op"] in ("overlap_exec", "overlap_at"):
+            c += 16.0
         elif s["op"] == "crash_enum":
             c += 4.0 + 9 * 11.0
         elif s["op"] == "evict":
@@ -435,7 +467,7 @@ def estimate_cost(h):
 
 def uses_sibling(h):
     for s in h["steps"]:
-        if s.get("proj") == "p1" or (s.get("exec") or {}).get("proj") == "p1":
+        if s.get("proj") == "p1" or (s.get("exec") or {}).get("proj") == "p1" or (s.get("peer") or {}).get("proj") == "p1":
             return True
     return False
 
